@@ -351,3 +351,21 @@ End Numerals.
 
 Lemma parse_na : parse_number "N/A" = MNone.
 Proof. reflexivity. Qed.
+
+(* ------------------------------------------------------------------ string-valued fields *)
+
+Lemma string_field_roundtrip : forall name indent pad v,
+  head_not_space name -> (2 <= indent + pad)%nat ->
+  contains (name ++ ":") (spaces pad ++ v ++ NL) = false ->
+  solid v -> (exists c r, v = String c r /\ is_ws c = false) ->
+  all_chars (fun c => negb (Ascii.eqb c NLc)) v = true ->
+  field_of_line name true (spaces indent ++ name ++ ":" ++ spaces pad ++ v ++ NL) = MR (MStr v) None.
+Proof.
+  intros name indent pad v Hn Hw Hc Hs (c & r & -> & Hcw) Hnl. unfold field_of_line.
+  rewrite cut_label by assumption.
+  rewrite !remove_char_app, remove_nl_spaces, (remove_char_absent _ _ Hnl).
+  change (remove_char NLc NL) with "". rewrite app_nil_r_s.
+  unfold rm2. rewrite rm2_leading_spaces by assumption.
+  rewrite <- (app_nil_r_s (String c r)) at 1. rewrite Hs. simpl rm2_from. now rewrite app_nil_r_s.
+Qed.
+
